@@ -235,7 +235,7 @@ class LargeMatcher(Component):
     rule = ">=1 row kept and >=1 row dropped"
 
     def examples(self, tier):
-        return 10 if tier == "quick" else 60
+        return 20 if tier == "quick" else 300
 
     def strategy(self, tier):
         return large_matcher_case(tier)
